@@ -1266,7 +1266,8 @@ static void move_case_return()
          && prev->GetPrev()->IsNewline())
       {
          // Find the end of the return statement
-         while (pc->IsNot(CT_SEMICOLON))
+         while (  pc->IsNotNullChunk()
+               && pc->IsNot(CT_SEMICOLON))
          {
             if (  pc->Is(CT_CASE)
                || pc->Is(CT_BRACE_CLOSE))
